@@ -304,6 +304,11 @@ RECURSIVE SumFold(_, _)
 SumFold(xs, acc) == IF xs = <<>> \/ IsErr(acc) THEN acc ELSE SumFold(Tail(xs), Arith("+", acc, Head(xs)))
 
 IntArg(args, i, dflt) == IF Len(args) >= i THEN args[i] ELSE I(dflt)
+\* a parameter given positionally (position i) or by keyword, else its default
+KwArg(args, kw, i, name, dflt) ==
+    IF Len(args) >= i THEN args[i]
+    ELSE IF \E j \in 1..Len(kw) : kw[j][1][2] = name THEN kw[CHOOSE j \in 1..Len(kw) : kw[j][1][2] = name][2]
+    ELSE I(dflt)
 
 (***************************************************************************)
 (* Methods on collections: recv is the evaluated receiver, args the        *)
@@ -413,12 +418,12 @@ Method(f, recv, args, kw, log) ==
    [] f = "insert" /\ coll /\ n = 2 /\ isI(a1) -> IF a1[2] < 0 THEN R(<<"e", "out-of-domain">>, log) ELSE R(L(InsertL(xs, a1[2], a2)), log)
    [] f = "insertMany" /\ coll /\ n = 2 /\ isI(a1) /\ IsColl(a2) ->
         IF a1[2] < 0 THEN R(<<"e", "out-of-domain">>, log) ELSE R(L(InsertManyL(xs, a1[2], a2[2])), log)
-   [] f = "delete" /\ coll /\ n \in {1, 2} /\ isI(a1) /\ isI(IntArg(args, 2, 1)) ->
-        R(L(DeleteL(xs, a1[2], IntArg(args, 2, 1)[2])), log)
-   [] f = "replace" /\ coll /\ n \in {2, 3} /\ isI(a1) /\ isI(IntArg(args, 3, 1)) ->
-        R(L(ReplaceManyL(xs, a1[2], <<a2>>, IntArg(args, 3, 1)[2])), log)
-   [] f = "replaceMany" /\ coll /\ n \in {2, 3} /\ isI(a1) /\ IsColl(a2) /\ isI(IntArg(args, 3, 1)) ->
-        R(L(ReplaceManyL(xs, a1[2], a2[2], IntArg(args, 3, 1)[2])), log)
+   [] f = "delete" /\ coll /\ n \in {1, 2} /\ isI(a1) /\ isI(KwArg(args, kw, 2, "count", 1)) ->
+        R(L(DeleteL(xs, a1[2], KwArg(args, kw, 2, "count", 1)[2])), log)
+   [] f = "replace" /\ coll /\ n \in {2, 3} /\ isI(a1) /\ isI(KwArg(args, kw, 3, "count", 1)) ->
+        R(L(ReplaceManyL(xs, a1[2], <<a2>>, KwArg(args, kw, 3, "count", 1)[2])), log)
+   [] f = "replaceMany" /\ coll /\ n \in {2, 3} /\ isI(a1) /\ IsColl(a2) /\ isI(KwArg(args, kw, 3, "count", 1)) ->
+        R(L(ReplaceManyL(xs, a1[2], a2[2], KwArg(args, kw, 3, "count", 1)[2])), log)
    [] f = "accumulate" /\ coll /\ lam1 /\ n = 1 -> IF xs = <<>> THEN E ELSE AccLam(a1, Tail(xs), xs[1], <<xs[1]>>, log)
    [] f = "accumulate" /\ coll /\ lam1 /\ n = 2 -> AccLam(a1, xs, a2, <<a2>>, log)
    [] f = "aggregate" /\ coll /\ lam1 /\ n = 1 -> IF xs = <<>> THEN E ELSE FoldLam(a1, Tail(xs), xs[1], log)
@@ -518,12 +523,13 @@ Eval(e, env, log) ==
       [] e[1] = "var" -> LET v == Lookup(env, Norm(e[2])) IN R(IF v[1] = "missing" THEN Null ELSE v, log)
       [] e[1] = "list" -> EvalSeq(e[2], env, log, <<>>)
       [] e[1] = "map" ->
-            LET ks == EvalSeq([i \in 1..Len(e[2]) |-> e[2][i][1]], env, log, <<>>)
-            IN IF IsErr(ks.v) THEN ks
-               ELSE LET vs == EvalSeq([i \in 1..Len(e[2]) |-> e[2][i][2]], env, ks.log, <<>>)
-                    IN IF IsErr(vs.v) THEN vs
-                       ELSE IF \E i \in 1..Len(ks.v[2]) : ~Hashable(ks.v[2][i]) THEN R(UnH, vs.log)
-                       ELSE R(MkDict([i \in 1..Len(e[2]) |-> <<ks.v[2][i], vs.v[2][i]>>]), vs.log)
+            \* {k1 => v1, k2 => v2}: k1, v1, k2, v2 in that order
+            LET RECURSIVE Flat(_)
+                Flat(ps) == IF ps = <<>> THEN <<>> ELSE <<Head(ps)[1], Head(ps)[2]>> \o Flat(Tail(ps))
+                kv == EvalSeq(Flat(e[2]), env, log, <<>>)
+            IN IF IsErr(kv.v) THEN kv
+               ELSE IF \E i \in 1..Len(e[2]) : ~Hashable(kv.v[2][2 * i - 1]) THEN R(UnH, kv.log)
+               ELSE R(MkDict([i \in 1..Len(e[2]) |-> <<kv.v[2][2 * i - 1], kv.v[2][2 * i]>>]), kv.log)
       [] e[1] = "idx" ->
             LET r == Eval(e[2], env, log)
             IN IF IsErr(r.v) THEN r
@@ -539,6 +545,14 @@ Eval(e, env, log) ==
       [] e[1] = "attr" ->
             LET r == Eval(e[2], env, log)
             IN IF IsErr(r.v) THEN r ELSE LET rf == Finish(r.v, r.log) IN IF IsErr(rf.v) THEN rf ELSE R(Member2(rf.v, e[3]), rf.log)
+      \* recv?.name / recv?.f(args): null when the receiver is null (nothing else is evaluated), else as the plain form
+      [] e[1] = "safeattr" ->
+            LET r == Eval(e[2], env, log)
+            IN IF IsErr(r.v) THEN r ELSE IF r.v[1] = "n" THEN R(Null, r.log) ELSE Eval(<<"attr", <<"const", r.v>>, e[3]>>, env, r.log)
+      [] e[1] = "safemcall" ->
+            LET r == Eval(e[2], env, log)
+            IN IF IsErr(r.v) THEN r ELSE IF r.v[1] = "n" THEN R(Null, r.log)
+               ELSE Eval(<<"mcall", <<"const", r.v>>, e[3], e[4], e[5]>>, env, r.log)
       [] e[1] = "un" ->
             LET r == Eval(e[3], env, log)
             IN IF IsErr(r.v) THEN r
@@ -593,6 +607,13 @@ Eval(e, env, log) ==
                                           ELSE LET c == Eval(Head(ps)[2], env, lg)
                                                IN IF IsErr(c.v) THEN c ELSE IF Truthy(c.v) THEN Eval(Head(ps)[3], env, c.log) ELSE Sw(Tail(ps), c.log)
                         IN Sw(e[3], log)
+                     ELSE IF f = "selectCase" THEN
+                        \* index of the first true predicate (the count of predicates if none); later predicates are not evaluated
+                        LET RECURSIVE Sc(_, _, _)
+                            Sc(es, i, lg) == IF es = <<>> THEN R(I(i), lg)
+                                             ELSE LET c == Eval(Head(es), env, lg)
+                                                  IN IF IsErr(c.v) THEN c ELSE IF Truthy(c.v) THEN R(I(i), c.log) ELSE Sc(Tail(es), i + 1, c.log)
+                        IN Sc(e[3], 0, log)
                      ELSE R(<<"e", "unmodelled">>, log))
                ELSE LET a == EvalSeq(e[3], env, log, <<>>)
                     IN IF IsErr(a.v) THEN a
@@ -602,6 +623,28 @@ Eval(e, env, log) ==
             LET r == Eval(e[2], env, log)
                 f == e[3]
             IN IF IsErr(r.v) THEN r
+               \* a lazy select/where consumed through take/limit/first: the lambda runs only for the elements consumed
+               ELSE IF f \in {"take", "limit", "first"} /\ e[2][1] = "mcall" /\ e[2][3] \in {"select", "where"} /\ Len(e[2][4]) = 1
+                       /\ (f = "first" \/ (Len(e[4]) = 1 /\ e[4][1][1] = "const" /\ e[4][1][2][1] = "i" /\ e[4][1][2][2] >= 0)) /\ Len(e[4]) <= 1 THEN
+                    LET src == Eval(e[2][2], env, log)
+                        clo == <<"lam", e[2][4][1], env>>
+                        k == IF f = "first" THEN 1 ELSE e[4][1][2][2]
+                        dflt == IF f = "first" /\ Len(e[4]) = 1 THEN Eval(e[4][1], env, src.log) ELSE R(Null, src.log)
+                        RECURSIVE LT(_, _, _, _)
+                        LT(xs, kk, lg, acc) ==
+                            IF kk = 0 \/ xs = <<>> THEN R(L(acc), lg)
+                            ELSE LET a == Apply(clo, <<Head(xs)>>, lg)
+                                 IN IF IsErr(a.v) THEN a
+                                    ELSE IF e[2][3] = "select" THEN LT(Tail(xs), kk - 1, a.log, Append(acc, a.v))
+                                    ELSE IF Truthy(a.v) THEN LT(Tail(xs), kk - 1, a.log, Append(acc, Head(xs)))
+                                    ELSE LT(Tail(xs), kk, a.log, acc)
+                    IN IF IsErr(src.v) THEN src ELSE IF ~IsColl(src.v) THEN R(<<"e", "unmodelled">>, src.log)
+                       ELSE IF IsErr(dflt.v) THEN dflt
+                       ELSE LET t == LT(src.v[2], k, dflt.log, <<>>)
+                            IN IF IsErr(t.v) THEN t
+                               ELSE IF f # "first" THEN t
+                               ELSE IF t.v[2] # <<>> THEN R(t.v[2][1], t.log)
+                               ELSE IF Len(e[4]) = 1 THEN R(dflt.v, t.log) ELSE R(ErrV, t.log)
                ELSE IF f = "unpack" THEN
                     LET rf == Finish(r.v, r.log)
                         names == [i \in 1..Len(e[4]) |-> e[4][i][2]]
@@ -609,6 +652,11 @@ Eval(e, env, log) ==
                        ELSE IF names = <<>> THEN R(<<"ctx", <<ArgFrame(rf.v[2])>> \o env>>, rf.log)
                        ELSE IF Len(names) # Len(rf.v[2]) THEN R(ErrV, rf.log)
                        ELSE R(<<"ctx", <<[i \in 1..Len(names) |-> <<names[i], rf.v[2][i]>>]>> \o env>>, rf.log)
+               ELSE IF f = "switchCase" THEN
+                    (IF r.v[1] # "i" THEN R(ErrV, r.log)
+                     ELSE IF e[4] = <<>> THEN R(Null, r.log)
+                     ELSE IF r.v[2] >= 0 /\ r.v[2] < Len(e[4]) THEN Eval(e[4][r.v[2] + 1], env, r.log)
+                     ELSE Eval(e[4][Len(e[4])], env, r.log))
                ELSE IF f = "as" THEN
                     \* recv.as(expr => name, ...): each expr is evaluated with $ = recv, the results are named in a new scope
                     LET RECURSIVE As(_, _, _)
